@@ -62,6 +62,11 @@ def cases(draw, tier="quick"):
         slow = draw(st.integers(0, 1))
         P["w_s2c"] = [1 if slow == 0 else 10, 1 if slow == 1 else 10]
         P["w_adv"] = draw(st.sampled_from([3, 6]))
+    if draw(st.integers(0, 3)) == 0:
+        # one side calls close() in the middle of the exchange (possibly while later phases are parked behind a
+        # missing one): what it has received up to and after that moment must still be a prefix
+        P["closes"] = [[draw(st.integers(0, 1)), draw(st.sampled_from([None, "verifier", "msg", "msg"]))]]
+        P["reorder"] = P["reorder"] or draw(st.booleans())
     P["w_due"] = draw(st.sampled_from([None, None, 1, 2]))      # eventual-send turns may lag behind the network
     P["gets_lag"] = draw(st.booleans())      # a reader that calls get_message() only after messages have arrived
     n = draw(st.integers(0, 260))
@@ -97,13 +102,14 @@ def run_case(P):
     settled = all(s == "quiescent" for s in rec.settle)
     if not settled:
         res.inconclusive = True
-    elif not bad:
+    elif not bad and not P.get("closes"):
         for i in range(2):
             if snap["msgs"][i] != snap["sent"][1 - i]:
                 res.violate("complete", "side %d got %d of %d messages at quiescence: %r vs %r" % (
                     i, len(snap["msgs"][i]), len(snap["sent"][1 - i]), common.short(snap["msgs"][i]),
                     common.short(snap["sent"][1 - i])), input_class="not-all-delivered-at-quiescence")
     res.notes["api_exceptions"] += len(rec.api_exc)
+    res.notes["early_close_cases"] += int(bool(P.get("closes")))
     nmsg = max(len(P["sends"][0]), len(P["sends"][1]))
     advn = rec.adv["dup"] + rec.adv["swap"]
     res.nontrivial = nmsg >= 2 and (advn >= 1 or rec.drops >= 1)
